@@ -394,6 +394,21 @@ Definition cbind {A B} (r : cr A) (f : A -> cr B) : cr B :=
 Definition cget {A} (o : option A) : cr A := match o with Some a => COk a | None => CErr end.
 Definition as_map (v : dm) : cr (list (bytes * dm)) := match v with DMap m => COk m | _ => CErr end.
 
+Fixpoint compile_fields (rec : dm -> cr (sel * bool)) (l : list (bytes * dm)) : cr (list (bytes * sel) * bool) :=
+  match l with
+  | [] => COk ([], false)
+  | (fk, x) :: t =>
+      cbind (rec x) (fun se =>
+      cbind (compile_fields rec t) (fun re => COk ((fk, fst se) :: fst re, snd se || snd re)))
+  end.
+Fixpoint compile_members (rec : dm -> cr (sel * bool)) (l : list dm) : cr (list sel * bool) :=
+  match l with
+  | [] => COk ([], false)
+  | x :: t =>
+      cbind (rec x) (fun se =>
+      cbind (compile_members rec t) (fun re => COk (fst se :: fst re, snd se || snd re)))
+  end.
+
 (* [compile_f fuel inrec v]: inrec = some enclosing ExploreRecursive exists (parentStack non-empty);
    the boolean result = an ExploreRecursiveEdge bound to the nearest enclosing recursion was parsed
    (exploreRecursiveContext.edgesFound > 0). *)
@@ -407,13 +422,7 @@ Fixpoint compile_f (fuel : nat) (inrec : bool) (v : dm) {struct fuel} : cr (sel 
         cbind (as_map body) (fun bm =>
         cbind (cget (assoc k_fieldsmap bm)) (fun fv =>
         cbind (as_map fv) (fun fm =>
-        cbind ((fix go (l : list (bytes * dm)) : cr (list (bytes * sel) * bool) :=
-                  match l with
-                  | [] => COk ([], false)
-                  | (fk, x) :: t =>
-                      cbind (compile_f f inrec x) (fun se =>
-                      cbind (go t) (fun re => COk ((fk, fst se) :: fst re, snd se || snd re)))
-                  end) fm) (fun r => COk (SFields (fst r), snd r)))))
+        cbind (compile_fields (compile_f f inrec) fm) (fun r => COk (SFields (fst r), snd r)))))
       else if bytes_eqb k k_all then
         cbind (as_map body) (fun bm =>
         cbind (cget (assoc k_next bm)) (fun nx =>
@@ -436,13 +445,7 @@ Fixpoint compile_f (fuel : nat) (inrec : bool) (v : dm) {struct fuel} : cr (sel 
       else if bytes_eqb k k_union then
         match body with
         | DList l =>
-            cbind ((fix go (l : list dm) : cr (list sel * bool) :=
-                      match l with
-                      | [] => COk ([], false)
-                      | x :: t =>
-                          cbind (compile_f f inrec x) (fun se =>
-                          cbind (go t) (fun re => COk (fst se :: fst re, snd se || snd re)))
-                      end) l) (fun r => COk (SUnion (fst r), snd r))
+            cbind (compile_members (compile_f f inrec) l) (fun r => COk (SUnion (fst r), snd r))
         | _ => CErr
         end
       else if bytes_eqb k k_rec then
